@@ -29,10 +29,22 @@ func runC02(p *eng.Prog, r *eng.Report, tier string) {
 		firstParam = c01NegotiateFeatures(c, nf, call)
 	}
 	c01Session(c)
-	c02First(c, nf, firstParam)
+	c02First(c, "C02.2", nf, firstParam)
 	c02Masks(c)
 	c02Closures(c)
 	c02StartTLS(c)
+	// C02.9 "whatever the peer answers the outcome is TLS or an error": no
+	// error of the feature loop or of the STARTTLS closures is swallowed (the
+	// pending-error analysis of C04.1 restricted to these functions)
+	var tlsFns []*eng.Fn
+	if nf != nil {
+		tlsFns = append(tlsFns, nf)
+	}
+	if st := c.fn("C02.9", "", "StartTLS"); st != nil {
+		tlsFns = append(tlsFns, st.Lits...)
+	}
+	c.r.Floor("C02.9", "feature loop and STARTTLS closures", len(tlsFns), 4)
+	errDiscipline(c, "C02.9", tlsFns, acceptC04, true)
 	c02RawConn(c)
 	bitProducers(c, "C02.8", 1, "Secure", map[string]string{
 		"xmpp.StartTLS$3":            "",
@@ -55,8 +67,7 @@ func structLitField(cl *ast.CompositeLit, name string) ast.Expr {
 }
 
 // C02.2 first-list indicator.
-func c02First(c *cx, nf *eng.Fn, firstParam string) {
-	id := "C02.2"
+func c02First(c *cx, id string, nf *eng.Fn, firstParam string) {
 	neg := c.fn(id, "", "negotiator")
 	if neg == nil || nf == nil {
 		return
